@@ -836,6 +836,13 @@ def g_defn(rng, small: bool = False) -> Dict[str, Any]:
             for k in range(rng.randrange(0, 3 if small else 5)):
                 ins = [[g_name(rng, "In", j), rng.choice(vars_)["name"]] for j in range(rng.randrange(0, 5))]
                 outs = [[g_name(rng, "Out", j), rng.choice(vars_)["name"]] for j in range(rng.randrange(0, 5))]
+                # an out-argument may carry the NAME of an in-argument (e.g. `Volume` in and out, possibly bound
+                # to different variables): `UpnpAction.argument(name, direction)` tells them apart
+                if ins and outs and rng.random() < 0.35:
+                    for _ in range(rng.randrange(1, 3)):
+                        name = rng.choice(ins)[0]
+                        if all(o[0] != name for o in outs):  # names stay distinct per direction
+                            outs[rng.randrange(len(outs))][0] = name
                 acts.append({"name": g_name(rng, "Act", k), "in": ins, "out": outs})
         tname = rng.choice(["Svc", "AVTransport", "X_é", "S-T.x"])
         svcs.append({"type": f"urn:schemas-upnp-org:service:{tname}{i}:1", "id": f"urn:upnp-org:serviceId:{tname}{i}",
@@ -1147,6 +1154,22 @@ CORPUS = [
               "dev": _dev([0], [_dev([1], [_dev([2], k=2)], k=1)])},
      "ops": [{"kind": "call", "svc": 1, "act": "Get", "args": {}, "ret": {"V": "x<y>&amp;\U0001F600"}}]},
 ]
+
+
+_S_SAME = _svc(
+    [{"name": "Vol", "dtype": "ui2", "min": "0", "max": "100"}, {"name": "Txt", "dtype": "string"}],
+    [{"name": "SetVolume", "in": [["Volume", "Vol"], ["Channel", "Txt"]], "out": [["Volume", "Txt"], ["Channel", "Vol"]]},
+     {"name": "Echo", "in": [["Value", "Txt"]], "out": [["Other", "Vol"], ["Value", "Txt"]]}])
+CORPUS.append(
+    # one name used for an in- and an out-argument (gap found by the seeded regression batch 2: arguments looked up
+    # by name only): last-wins breaks the server's request parsing, first-wins the client's response parsing
+    {"defn": {"svcs": [_S_SAME], "dev": _dev([0])}, "ops": [
+        {"kind": "call", "svc": 0, "act": "SetVolume", "args": {"Volume": 7, "Channel": "L<&>"}, "ret": {"Volume": "seven", "Channel": 7}},
+        {"kind": "call", "svc": 0, "act": "Echo", "args": {"Value": "x"}, "ret": {"Value": "y", "Other": 100}},
+        {"kind": "call", "svc": 0, "act": "Echo", "args": {"Value": "x"}, "err": 701},
+        {"kind": "raw", "svc": 0, "act": "SetVolume", "class": "valid", "soapaction": '"urn:schemas-upnp-org:service:S0:1#SetVolume"',
+         "ret": {"Volume": "v"}, "body": env_tree(_S_SAME["type"], "SetVolume", [("Volume", "100"), ("Channel", "")])},
+    ]})
 
 
 def signature(case: Case, verdict) -> str:
